@@ -22,7 +22,8 @@ TRUSTED_BASE = [
     "stdlib axioms of the classical reals: ClassicalDedekindReals.sig_forall_dec, sig_not_dec, "
     "FunctionalExtensionality.functional_extensionality_dep, Classical_Prop.classic",
     "coq-interval (per-case certificates) incl. primitive-float/int63 specification axioms of the stdlib",
-    "hand-written model Model/EntropyM.v of persistent_entropy.py lines 63-90",
+    "hand-written model Model/EntropyM.v of persistent_entropy.py lines 63-90, tied twice: per-case interval certificates and "
+    "harness/src2coq.py (entropy_regen: regenerated obligations regen_shannon, regen_normalised; Step 1 pinned as text)",
     "harness: generator, float->exact-rational printer, exception->error-enum mapping; call histories (harness/history.py) "
     "are judged by the spec predicate only",
 ]
@@ -32,7 +33,15 @@ ASSUMPTIONS = [
     "normalize=True with fewer than 2 finite bars is outside the property's quantifier (0/0)",
 ]
 TOL = 1e-10
-COQ_DEPS = ["Corr/EntropyCorr.vo"]
+COQ_DEPS = ["Corr/EntropyCorr.vo", "Corr/RegenTac.vo"]
+
+
+def extra_obligations(tier):
+    """Second tie (DESIGN 12.8): Step 2 of persistent_entropy.py (lengths, Shannon entropy, normalisation) is re-translated
+    from the current source into real-valued Gallina functions that must be provably equal to Model/EntropyM.v's
+    `shannon` / `entropy_val`; Step 1 (infinite bars, the list wrapper, the error branches) must still be the modelled text."""
+    from .. import src2coq
+    return src2coq.check_regen(PID, "entropy", src2coq.entropy_regen, core.REPO)
 
 
 def _bars(rng, n, scale, equal=False):
